@@ -484,6 +484,35 @@ Proof.
   rewrite first_hit_app, Hd. cbn [map first_hit]. rewrite Hx. reflexivity.
 Qed.
 
+(* ---------- iterators ---------- *)
+(* every time an iterator is loaded - an iterator inside the template of another one once per
+   role the outer one generates - its range is evaluated against the consolidated stack of the
+   role it is loaded under, and one copy of the template is loaded per value *)
+Lemma iterator_range anc locals var rng tpl ts :
+  load anc locals (RIter var rng tpl) = Some ts ->
+  exists vals, eval_range (consolidated anc) rng = Some vals /\
+               opt_concat_map (fun x => load anc [(var, x)] tpl) vals = Some ts.
+Proof.
+  cbn [load]. destruct (eval_range (consolidated anc) rng) as [vals|]; [|discriminate].
+  intro H. exists vals. split; [reflexivity|exact H].
+Qed.
+
+(* a reference in a range is resolved by the ranking of the sources seen from that role *)
+Lemma range_reference anc k :
+  eval_val (consolidated anc) (VRef k) = first_hit k (sources anc).
+Proof. unfold eval_val. cbn [eval_with]. apply assoc_consolidated. Qed.
+
+(* so the bound of an iterator loaded under a role generated by an outer iterator is that role's
+   value of the outer variable (unless a user var on the path or a nearer var defines the name) *)
+Lemma nested_range_sees_own_outer_value anc' locals nm d v n lv anc var x :
+  resolve_level anc' locals nm d v = Some (n, lv) -> assoc var locals = Some x ->
+  first_hit var (chain l_user (lv :: anc)) = None ->
+  eval_val (consolidated (lv :: anc)) (VRef var) = Some x.
+Proof.
+  intros Hr Hl Hu. rewrite range_reference. unfold sources. rewrite first_hit_app, Hu.
+  cbn [chain map app first_hit]. rewrite (iterator_local _ _ _ _ _ _ _ _ _ Hr Hl). reflexivity.
+Qed.
+
 (* ---------- task level ---------- *)
 Lemma assoc_cmd_final wf sp d v k :
   assoc k (wrapped_and_flattened (merge wf sp) [v; d]) = first_hit k [sp; wf; v; d].
